@@ -89,6 +89,8 @@ def run(ctx):
                 if not ok:
                     tags = set(rs[0]["case"]["tags"]) if rs[0]["case"] else set()
                     bad = tags & {"leader_not_first_factor", "eager_root_after_lookup_rank"}
+                    if gens.colliding_rank_names(rs[0]["yaml"]):
+                        bad = bad | {"colliding_rank_names"}          # C11-colliding-rank-names (a finding of the unchanged tree)
                     # convolutions outside C04's claimed class stay C04's findings (same classification and signatures as ./check C04)
                     conv_known = None
                     if "conv" in tags:
